@@ -332,3 +332,12 @@ Proof.
   - intros H c Hc. destruct (visible (v_heads side) c) eqn:Es; [reflexivity|]. cbn.
     apply negb_true_iff. apply H; [|assumption]. unfold visible. now apply memc_In.
 Qed.
+
+(** A resolved bookmark follows the rewrite of its commit. *)
+Lemma update_bookmark_normal res c : update_bookmark res [Some c] = [Some (res c)].
+Proof.
+  unfold update_bookmark. cbn [evens_t fold_left]. unfold moved.
+  destruct (commit_eqb (res c) c) eqn:E; cbn [negb].
+  - apply commit_eqb_iff in E. now rewrite E.
+  - unfold normal. apply merge_ref_targets_left_unchanged.
+Qed.
